@@ -4,5 +4,5 @@ From Coq Require Extraction.
 From GV Require Import Model.Dispatch.
 Extraction Language OCaml.
 Definition force_types : Z * N * nat := (Z.of_N (N.of_nat (Z.to_nat 0%Z)), 0%N, 0%nat).
-Extraction "../build/ml/mC12.ml" force_types data_received step run init inv_b sinv_b event_wf
-  shut_down close_conn resets_of.
+Extraction "../build/ml/mC12.ml" force_types data_received step run init inv_b event_wf
+  shut_down close_conn closable.
